@@ -744,7 +744,8 @@ def _check_histories(ctx, jobs, nproc):
 
 # ----------------------------------------------------------------------------------------------- PoSER
 def poser_oracle(setups, names):
-    """the property text: >= 2 setups, identical types in identical order, all run, all with modes, one name per algorithm"""
+    """the property text: >= 2 setups, identical types in identical order, all run, all with modes, one name per algorithm
+    (as many list ENTRIES as algorithms: a repeated name still counts once per entry; distinctness is not demanded)"""
     if len(setups) < 2:
         return False
     lists = [[(type(a), a.result is not None, a.result is not None and a.result.Fn is not None) for a in s.algorithms.values()] for s in setups]
@@ -765,12 +766,24 @@ def poser_call(setups, names):
         return type(e).__name__
 
 
-def check_poser_configs(ctx, pools):
-    """all assignments of (type list x run/mpe state per algorithm) to 0..4 setups x name-list lengths"""
+LETTERS = ["one", "two", "three"]  # name alphabet (the model sees 0, 1, 2); lists over it contain repeats
+
+
+def name_lists(nalpha, maxlen):
+    """every list over the first nalpha letters with 0..maxlen entries"""
+    return [list(t) for L in range(0, maxlen + 1) for t in itertools.product(range(nalpha), repeat=L)]
+
+
+def check_poser_configs(ctx, pools, explicit=()):
+    """all assignments of (type list x run/mpe state per algorithm) to 0..4 setups x name lists (with repeats).
+    explicit: corpus cases (list of setup descriptions [[class, state], ..], names as letters), run first."""
     rng = ctx.rng
     exprs, meta = [], []
     small = np.round(W.base[:40] * 4) / 4
-    for pool in pools:
+    states_txt = ("not run", "run", "modes")
+    work = [([list(t) for t in dict.fromkeys(tuple(cn for cn, _ in d) for d in descs if d)], (descs, names)) for descs, names in explicit]
+    work += [(pool, None) for pool in pools]
+    for pool, given in work:
         # one reusable setup object per option; the result objects are real ones (isolated runs, with / without modes)
         options = [([], None)]
         for tl in pool:
@@ -793,50 +806,73 @@ def check_poser_configs(ctx, pools):
             built.append(ss)
         coq_opt = [clist(["(%d,%s)" % (CID[cn], ("NotRun", "Ran", "Extracted")[st]) for cn, st in desc]) for desc, _ in options]
         nopt = len(options)
-        maxlen = max(len(t) for t in pool)
-        configs = []
-        for n in range(0, 5):
-            full = list(itertools.product(range(nopt), repeat=n)) if nopt ** n <= 300000 else None
-            limit = {3: ctx.n(1500, 6000), 4: ctx.n(500, 3000)}.get(n, 10 ** 9)
-            if full is None or len(full) > limit:
-                full = [tuple(rng.randrange(nopt) for _ in range(n)) for _ in range(limit)]
-            configs += full
-        # bias: mostly-valid configurations (same option repeated), where a single clause decides
-        ok = [i for i, (d, _) in enumerate(options) if d and all(st == 2 for _, st in d)]
-        for _ in range(ctx.n(1000, 3000)):
-            base = rng.choice(ok)
-            cfg = [base] * rng.randint(2, 4)
-            if rng.random() < 0.7:
-                cfg[rng.randrange(len(cfg))] = rng.randrange(nopt)
-            configs.append(tuple(cfg))
+        maxlen = max([len(t) for t in pool] + [1])
         batch = []
-        for cfg in configs:
-            for nn in range(0, maxlen + 2):
-                batch.append((cfg, nn))
-        ctx.hist("poser pool", "%s: %d options, %d configurations" % (pool, nopt, len(batch)))
+        if given is not None:
+            descs, names = given
+            index = {tuple((cn, st) for cn, st in d): i for i, (d, _) in enumerate(options)}
+            cfg = tuple(index[tuple((cn, states_txt.index(st)) for cn, st in d)] for d in descs)
+            batch.append((cfg, [LETTERS.index(x) for x in names]))
+        else:
+            configs = []
+            for n in range(0, 5):
+                full = list(itertools.product(range(nopt), repeat=n)) if nopt ** n <= 300000 else None
+                limit = {3: ctx.n(1500, 6000), 4: ctx.n(500, 3000)}.get(n, 10 ** 9)
+                if full is None or len(full) > limit:
+                    full = [tuple(rng.randrange(nopt) for _ in range(n)) for _ in range(limit)]
+                configs += full
+            # bias: mostly-valid configurations (same option repeated), where a single clause decides
+            ok = [i for i, (d, _) in enumerate(options) if d and all(st == 2 for _, st in d)]
+            for _ in range(ctx.n(1000, 3000)):
+                base = rng.choice(ok)
+                cfg = [base] * rng.randint(2, 4)
+                if rng.random() < 0.7:
+                    cfg[rng.randrange(len(cfg))] = rng.randrange(nopt)
+                configs.append(tuple(cfg))
+            # name lists: two per configuration - one with the right number of entries (repeats allowed), one drawn freely
+            for cfg in configs:
+                nalg = len(options[cfg[0]][0]) if cfg else rng.randint(0, maxlen)
+                batch.append((cfg, [rng.randrange(3) for _ in range(nalg)]))
+                batch.append((cfg, [rng.randrange(rng.randint(1, 3)) for _ in range(rng.randint(0, maxlen + 2))]))
+            # ... and EVERY list over a 2- and a 3-letter alphabet with 0..n_alg+2 entries on configurations where the names
+            # decide (>= 2 non-empty setups with equal type lists): repeats with the right distinct count, the right total ...
+            decide = [c for c in dict.fromkeys(configs) if len(c) >= 2 and all(options[i][0] for i in c)
+                      and all([cn for cn, _ in options[i][0]] == [cn for cn, _ in options[c[0]][0]] for i in c)]
+            good = [c for c in decide if all(st == 2 for i in c for _, st in options[i][0])]
+            rng.shuffle(good)
+            rng.shuffle(decide)
+            chosen = list(dict.fromkeys(good[:ctx.n(70, 300)] + decide[:ctx.n(40, 150)]))
+            for n, cfg in enumerate(chosen):
+                nalg = len(options[cfg[0]][0])
+                for nl in name_lists(3 if n % 3 == 0 else 2, nalg + 2):
+                    batch.append((cfg, nl))
+        ctx.hist("poser pool", "%s: %d options, %d configurations x name lists" % (pool, nopt, len(batch)))
         opts = "(%s)%%nat" % clist(coq_opt)
-        for i in range(0, len(batch), 2000):
-            part = batch[i:i + 2000]
-            rows = "|".join(" ".join(str(o) for o in cfg) + " %d" % nn for cfg, nn in part)
-            exprs.append('showPoserS %s "%s"' % (opts, rows))
+        for i in range(0, len(batch), 800):
+            part = batch[i:i + 800]
+            rows = "|".join(" ".join(str(x) for x in [len(cfg)] + list(cfg) + nl) for cfg, nl in part)
+            exprs.append('showPoserNS %s "%s"' % (opts, rows))
             meta.append((pool, options, built, part))
     outs = ctx.coq_eval(HEADER, exprs, shard=max(1, min(30, (len(exprs) + 13) // 14)))
     for (pool, options, built, part), o in zip(meta, outs):
         ms = o.split(" ")
         assert len(ms) == len(part)
-        for (cfg, nn), m in zip(part, ms):
+        for (cfg, nl), m in zip(part, ms):
             setups = [built[i] for i in cfg]
-            names = ["n%d" % i for i in range(nn)]
+            names = [LETTERS[x] for x in nl]
             got = poser_call(setups, names)
             want = poser_oracle(setups, names)
-            case = dict(kind="poser", setups=[[[cn, ("not run", "run", "modes")[st]] for cn, st in options[i][0]] for i in cfg], names=nn)
+            case = dict(kind="poser", setups=[[[cn, states_txt[st]] for cn, st in options[i][0]] for i in cfg], names=names)
             ctx.count(case, nontrivial=len(cfg) >= 2)
             ctx.hist("poser outcome", "%s/%s" % ("accepted" if got is None else got, "clause " + m if m != "-" else "ok"))
+            ctx.hist("poser names", "%d entries, %d distinct" % (len(names), len(set(names))) if len(names) != len(set(names)) else "all distinct")
             if want and got is not None:
                 ctx.fail("oracle", "MultiSetup_PoSER raised %s on a valid configuration" % got, case, key="C15:poser:rejected-valid")
             if not want and got != "ValueError":
-                ctx.fail("oracle", "MultiSetup_PoSER %s on an invalid configuration (ValueError required)" % (
-                    "accepted" if got is None else "raised " + got), case, key="C15:poser:invalid-not-ValueError")
+                ctx.fail("oracle", "MultiSetup_PoSER %s on an invalid configuration (ValueError required)%s" % (
+                    "accepted" if got is None else "raised " + got,
+                    ": %d names for %d algorithms" % (len(names), len(setups[0].algorithms)) if setups and len(names) != len(setups[0].algorithms) else ""),
+                    case, key="C15:poser:invalid-not-ValueError")
             if (m == "-") != (got is None) or (m != "-" and got != "ValueError"):
                 ctx.fail("correspondence", "PoSER: model %s, implementation %s" % (
                     "accepts" if m == "-" else "ValueError (clause %s)" % m, "accepts" if got is None else got), case, key="C15:corr:poser")
@@ -888,7 +924,7 @@ def check_poser_histories(ctx, lineups):
     assert len(ms) == len(batch)
     for (c, nn), m in zip(batch, ms):
         setups = [live[k][3] for k in c]
-        names = ["n%d" % i for i in range(nn)]
+        names = [LETTERS[(i * 7 + nn) % 3 if (i + nn) % 2 else 0] for i in range(nn)]  # repeats: the model counts entries
         got, want = poser_call(setups, names), poser_oracle(setups, names)
         case = dict(kind="poser-histories", setups=[dict(lineup=live[k][0], history=live[k][1]) for k in c], names=nn)
         ctx.count(case)
@@ -1215,7 +1251,10 @@ def run(ctx):
         pools = [pool_order(*f0), pool_sub(*f1), pool_sub(*f0)[:2] + [[f0[0]]], pool_len(*rng.choice(others))]
     else:
         pools = [pool_order(*f) for f in fam] + [pool_sub(*f) for f in fam] + [pool_len(*o) for o in others]
-    check_poser_configs(ctx, pools)
+    explicit = []
+    for path in sorted(glob.glob(os.path.join(VERIF, "corpus", "C15", "*.json"))):
+        explicit += [(c["setups"], c["names"]) for c in json.load(open(path)).get("poser_cases", [])]
+    check_poser_configs(ctx, pools, explicit)
     T["poser configurations"] = [round(float(x), 1) for x in clock() - t0]
     t0 = clock()
     plu = [[[x, 0, 0], [y, 0, 0]] for (x, y) in (fam[:1] if ctx.quick() else fam[:3])]
